@@ -225,6 +225,7 @@ func (w *World) Close() {
 		g.park.signal()
 		g.ack.wait()
 	}
+	raceTeardownAcquire()
 	if W == w {
 		W = nil
 	}
@@ -270,6 +271,17 @@ func (w *World) Live() int {
 
 //go:norace
 func (w *World) Advance(ns int64) { w.NowNS += ns }
+
+// SetExplore switches exploration on from this point of the execution: the given kinds become
+// choice points and the prefix is replayed from here (set-up runs on the default schedule).
+//
+//go:norace
+func (w *World) SetExplore(kinds int, prefix []int) {
+	w.Explore = kinds
+	w.prefix = prefix
+	w.pos = 0
+	w.Trace = nil
+}
 
 //go:norace
 func (w *World) CrashCopy() []string { return append([]string(nil), w.Crashes...) }
@@ -328,6 +340,7 @@ func runG(w *World, g *G, f func()) {
 	g.park.wait()
 	if w.dead {
 		g.done = true
+		raceTeardownRelease()
 		g.ack.signal()
 		return
 	}
@@ -343,9 +356,11 @@ func finishG(w *World, g *G) {
 	}
 	g.done = true
 	if w.dead {
+		raceTeardownRelease()
 		g.ack.signal()
 		return
 	}
+	raceTeardownRelease()
 	w.pick(nil)
 }
 
